@@ -521,7 +521,7 @@ def pytest_sessionfinish(session, exitstatus):
                     for external_name in used:
                         state().storage.persist(external_name)
 
-                cr.fix_all()
+                cr.fix_all(validate=ast.parse)
 
             unused_externals = _find_external.unused_externals()
 
